@@ -1030,6 +1030,37 @@ class Generator:
                 info["lost_anchors"].append({"anchor": what, "reason": why})
                 self.lost.append({"fn": it.path(), "file": relfile, "anchor": what, "reason": why})
 
+        if getattr(blk, "tail", None):
+            name, body, line = blk.tail
+            _check_ghost(body, "%s:%d" % (blk.specfile, line))
+            # tail expression: after the last `;` at depth 0, skipping complete for / while / loop statements
+            s_ = sig_idx(toks, lo, hi)
+            start = s_[0] if s_ else None
+            n_ = 0
+            while n_ < len(s_):
+                t_ = toks[s_[n_]]
+                if t_.kind == "punct" and t_.text in ("(", "[", "{"):
+                    n_ = s_.index(match_close(toks, s_[n_])) + 1
+                    continue
+                if t_.kind == "punct" and t_.text == ";":
+                    start = s_[n_ + 1] if n_ + 1 < len(s_) else None
+                    # skip loop statements that follow
+                    while start is not None and toks[start].kind == "id" and toks[start].text in ("for", "while", "loop"):
+                        m_ = s_.index(start)
+                        while toks[s_[m_]].text != "{":
+                            m_ += 1
+                        m_ = s_.index(match_close(toks, s_[m_])) + 1
+                        start = s_[m_] if m_ < len(s_) else None
+                        n_ = m_ - 1
+                n_ += 1
+            if start is None:
+                lost("tail expression", "the body has no tail expression")
+            else:
+                o_ = {"o": "spec", "f": blk.specfile, "l": line, "fn": fnpath, "kind": "tail"}
+                edits.ins_before(start, "let %s = " % name, o_)
+                edits.ins_before(it.end - 1, ";\n" + body + "\n" + name + "\n", o_)
+                if not is_canary:
+                    self.log(relfile, fnpath)("R-bind-tail: tail expression bound to `%s`" % name)
         for body, line in blk.entry:
             _check_ghost(body, "%s:%d" % (blk.specfile, line))
             edits.ins_after_append(it.open, "\n" + body + "\n", {"o": "spec", "f": blk.specfile, "l": line, "fn": fnpath, "kind": "entry"})
